@@ -38,7 +38,11 @@ checks.update({
 checks.update({
  "C11": dict(engine="mut", text="Full single/pair mutation menu over small base directories and the metadata record, each mutant opened, read, dumped and closed by the real code: no panic, termination, allocation bounded by directory size + MaxEntrySize; damaged entry encodings must decode to an error; missing/short/foreign-header sealed segments must fail Open; a failed Open on the real stack must not leave the directory locked.", ref="4/C11, 3.6", note=enum_note),
 })
+checks.update({
+ "C07": dict(engine="trace", text="All workloads to the depth bound run on the production fs + bbolt under strace; a monitor automaton checks on every path: no StoreLogs ack with un-fsynced segment writes, directory fsync before the first ack into a new segment, directory fsync after every unlink, O_EXCL + preallocation + zero fill, tmp/rename/dir-fsync creation of wal-meta.db, synced metadata at every ack; and the simulated OS's event sequence equals the kernel's.", ref="4/C07, 3.5", note="Trusted base: strace and the kernel's view of the process, the monitor automaton, the marker protocol of the traced child."),
+})
 technique = {
+ "trace": "exhaustive workload enumeration with a trace-monitor automaton over kernel-level system-call traces, plus trace conformance of the simulated OS",
  "mut": "exhaustive enumeration of a bounded mutation menu on the real code",
  "format": "bounded-exhaustive operation sequences with an independent reimplementation of the on-disk format as oracle, plus golden fixtures",
  "fault": "exhaustive fault-position enumeration on the real code against a set-valued reference model",
@@ -61,6 +65,7 @@ m = {
   {"name": "crash", "path": "harness/core/crash.go", "serves_properties": ["C01", "C02", "C03", "C04", "C08", "C13"], "kind_free_text": "explicit-state search over durable disk images with exhaustive crash-image enumeration"},
   {"name": "seq", "path": "harness/core/seq.go", "serves_properties": ["C05", "C08", "C13", "C20"], "kind_free_text": "bounded-exhaustive operation sequences vs reference model, simulated and real stacks"},
   {"name": "enum", "path": "harness/worker/codec.go, harness/worker/migrate.go", "serves_properties": ["C12", "C15", "C19"], "kind_free_text": "exhaustive product enumeration of boundary menus"},
+  {"name": "trace", "path": "harness/core/trace.go, harness/worker/trace.go", "serves_properties": ["C07"], "kind_free_text": "strace-based fsync-discipline monitor + sim/real event conformance"},
   {"name": "mut", "path": "harness/worker/mut.go", "serves_properties": ["C11"], "kind_free_text": "exhaustive bounded mutation of stored bytes"},
   {"name": "format", "path": "harness/worker/format.go, fmtspec/", "serves_properties": ["C09"], "kind_free_text": "independent format implementation + golden fixtures"},
   {"name": "fault", "path": "harness/core/fault.go", "serves_properties": ["C10"], "kind_free_text": "exhaustive I/O fault position enumeration"},
